@@ -383,7 +383,11 @@ def run(chk, replay=None):
                     stats['values_compared'] += 1
                     if not X.same(exp[0], float(t[3])):
                         kf = [f for f in known_findings()['findings'] if f.get('id') == 'C20-initialised-from-external']
-                        if init_from_marked and kf and float(t[3]) != float(t[3]):
+                        # the finding: a constant initialised by the name of a marked variable reads it before the callback has supplied
+                        # it (NaN in the harness); everything computed from such a constant is off as well (a comparison with NaN
+                        # takes the other branch), nothing else is covered by the finding
+                        downstream = exp[2] is not None and any(im.idx == exp[2].idx or im.idx in closure(exp[2].idx) for im in init_from_marked)
+                        if init_from_marked and kf and (float(t[3]) != float(t[3]) or downstream):
                             chk.known_finding(kf[0]['what']); stats['known_finding_hits'] = stats.get('known_finding_hits', 0) + 1
                             continue
                         oracle.append(('with externals supplied from the ground truth, %s.%s = %r but the equations give %r' % (t[1], t[2], float(t[3]), exp[0]), text, ext))
